@@ -104,8 +104,125 @@ def install():
     DumpingOutputHandler.write = dump_write
 
 
+# -- C20: per-handler random streams for the multi-process mediator and its single-process reference ---------------------
+def handler_state(seed, index):
+    return random.Random(f"c20-handler:{seed}:{index}").getstate()
+
+
+def install_mp(spec):
+    """Before the workers are forked: every event handler gets instance-level wrappers that (in the child) install the
+    handler's private generator state on the first call and inject a seeded delay before the result is returned."""
+    import multiprocessing
+    import time
+    from jellyfysh.mediator.multi_process_mediator import multi_process_mediator as mpm
+    seed, delays = spec["seed"], spec.get("delays", 0)
+    counter = multiprocessing.Value("i", 0)
+    STATE["out_states_computed"] = counter
+    orig_start = mpm.MultiProcessMediator._start_processes
+
+    def _start_processes(self):
+        for index, h in enumerate(self._event_handlers_list):
+            def wrap(h=h, index=index):
+                st = {"first": True, "calls": 0, "rng": random.Random(f"c20-delay:{seed}:{spec.get('schedule', 0)}:{index}")}
+                set_, sos_ = h.send_event_time, h.send_out_state
+
+                def before():
+                    if st["first"]:
+                        random.setstate(handler_state(seed, index))
+                        st["first"] = False
+
+                def after():
+                    st["calls"] += 1
+                    if delays:
+                        r = st["rng"].random()
+                        d = 0.0 if r < 0.4 else (0.0005 * st["rng"].random() if r < 0.8 else 0.005 * st["rng"].random() ** 3)
+                        if spec.get("invert") and index % 2 == 0:
+                            d += 0.002
+                        if d:
+                            time.sleep(d * delays)
+
+                def send_event_time(*a):
+                    before()
+                    r = set_(*a)
+                    after()
+                    return r
+
+                def send_out_state(*a):
+                    before()
+                    r = sos_(*a)
+                    with counter.get_lock():
+                        counter.value += 1
+                    after()
+                    return r
+                h.send_event_time, h.send_out_state = send_event_time, send_out_state
+            wrap()
+        return orig_start(self)
+    mpm.MultiProcessMediator._start_processes = _start_processes
+    # arrival orders seen by the mediator
+    orig_wait = mpm.connection.wait
+    sig = STATE.setdefault("arrival", {"orders": set(), "multi": 0, "calls": 0})
+
+    def wait(pipes, *a, **k):
+        r = orig_wait(pipes, *a, **k)
+        idx = tuple(pipes.index(p) for p in r)
+        sig["calls"] += 1
+        if len(idx) > 1:
+            sig["multi"] += 1
+        sig.setdefault("seq", []).append(idx)
+        return r
+    mpm.connection.wait = wait
+
+
+def install_sp_reference(spec):
+    """Single-process reference: the same private stream per handler, swapped into the global generator around each call."""
+    from jellyfysh.mediator.single_process_mediator import SingleProcessMediator
+    seed = spec["seed"]
+    orig_init = SingleProcessMediator.__init__
+
+    import functools
+
+    @functools.wraps(orig_init)      # the factory reads the constructor's signature
+    def __init__(self, *a, **k):
+        orig_init(self, *a, **k)
+        for index, h in enumerate(self._event_handlers_list):
+            def wrap(h=h, index=index):
+                st = {"state": handler_state(seed, index)}
+                set_, sos_ = h.send_event_time, h.send_out_state
+
+                def swapped(f):
+                    def g(*a2):
+                        saved = random.getstate()
+                        random.setstate(st["state"])
+                        try:
+                            return f(*a2)
+                        finally:
+                            st["state"] = random.getstate()
+                            random.setstate(saved)
+                    return g
+                h.send_event_time, h.send_out_state = swapped(set_), swapped(sos_)
+            wrap()
+    SingleProcessMediator.__init__ = __init__
+
+
+def children_alive():
+    me = os.getpid()
+    out = []
+    for pid in os.listdir("/proc"):
+        if pid.isdigit():
+            try:
+                with open(f"/proc/{pid}/stat") as f:
+                    fields = f.read().rsplit(")", 1)[1].split()
+                if int(fields[1]) == me and fields[0] != "Z":
+                    out.append(int(pid))
+            except (OSError, IndexError, ValueError):
+                pass
+    return out
+
+
 def main():
     mode, spec = sys.argv[1], json.loads(sys.argv[2])
+    if mode in ("mp", "sp_ref"):
+        return main_c20(mode, spec)
     from vf import core
     core.assert_repo_import()
     from vf import verif_input_handlers
@@ -138,6 +255,59 @@ def main():
         err = f"{type(e).__name__}: {e}\n" + traceback.format_exc()[-1500:]
     with open(out, "w") as f:
         json.dump({"log": LOG, "error": err, "dumps": STATE["dumps"]}, f)
+
+
+
+def main_c20(mode, spec):
+    import hashlib
+    import time
+    from vf import core
+    core.assert_repo_import()
+    from vf import verif_input_handlers, scenario
+    verif_input_handlers.register()
+    install()
+    STATE["max_events"] = spec.get("max_events")
+    if mode == "mp":
+        install_mp(spec)
+    else:
+        install_sp_reference(spec)
+    err, alive_before, alive_after, mediator = None, None, None, None
+    try:
+        with contextlib.redirect_stdout(io.StringIO()):
+            cfg = scenario.build_config(spec["scenario"], spec["workdir"])
+            random.seed(f"twin:{spec['seed']}")
+            mediator, _ = scenario.build_mediator(cfg)
+            from jellyfysh.base.exceptions import EndOfRun
+            try:
+                mediator.run()
+            except (EndOfRun, StopTwin):
+                pass
+            alive_before = len(children_alive())
+            mediator.post_run()
+            time.sleep(0.3)
+            alive_after = children_alive()
+    except BaseException as e:
+        import traceback
+        err = f"{type(e).__name__}: {e}\n" + traceback.format_exc()[-1500:]
+        try:
+            if mediator is not None:
+                mediator.post_run()
+        except BaseException:
+            pass
+    arr = STATE.get("arrival", {})
+    seq = arr.get("seq", [])
+    res = {"log": LOG, "error": err, "children_before_post_run": alive_before,
+           "children_alive_after_post_run": alive_after,
+           "arrival_signature": hashlib.sha1(repr(seq).encode()).hexdigest() if seq else None,
+           "wait_calls": arr.get("calls", 0), "wait_calls_with_several_ready": arr.get("multi", 0),
+           "out_states_computed": STATE["out_states_computed"].value if "out_states_computed" in STATE else None}
+    with open(spec["out"], "w") as f:
+        json.dump(res, f)
+    for pid in (alive_after or []):
+        try:
+            os.kill(pid, 9)
+        except OSError:
+            pass
 
 
 if __name__ == "__main__":
